@@ -153,20 +153,33 @@ impl Property for C20 {
             let at = rng.usize_below(sc.opts.len() + 1);
             sc.opts.insert(at, Opt::R);
         }
+        // -0 / -d C together with the replace option: items end at that byte instead
+        let sep: u8 = if rng.chance(1, 8) {
+            let (o, b) = match rng.below(3) {
+                0 => (Opt::Null, 0u8),
+                1 => (Opt::Delim(",".into()), b','),
+                _ => (Opt::Delim("\\n".into()), b'\n'),
+            };
+            let at = rng.usize_below(sc.opts.len() + 1);
+            sc.opts.insert(at, o);
+            b
+        } else {
+            b'\n'
+        };
         // input lines
         let nlines = if rng.chance(1, 8) { 0 } else { rng.small(1, 8) };
         let mut input = Vec::new();
         for i in 0..nlines {
             if rng.chance(1, 8) {
-                input.push(b'\n'); // empty line
+                input.push(sep); // empty line
             }
             input.extend_from_slice(&gen_line(rng, &r));
             if i + 1 < nlines || rng.chance(3, 4) {
-                input.push(b'\n');
+                input.push(sep);
             }
         }
         if nlines == 0 && rng.chance(1, 3) {
-            input.extend_from_slice(b"\n\n"); // only empty lines
+            input.extend_from_slice(&[sep, sep]); // only empty lines
         }
         sc.input = B(input.clone());
         let planned = nlines + 1;
@@ -259,6 +272,9 @@ impl Property for C20 {
                 }
                 if sc.opts.iter().any(|o| matches!(o, Opt::S(_))) {
                     rep.probe("replace_mode_with_max_chars_that_just_fits");
+                }
+                if sc.opts.iter().any(|o| matches!(o, Opt::Null | Opt::Delim(_))) {
+                    rep.probe("replace_mode_with_an_explicit_delimiter");
                 }
             }
             Mode::Batch => rep.probe("n_or_L_given_last_wins_over_replace"),
